@@ -115,8 +115,5 @@ Definition check (c : case) : verdict :=
     if c_prop c =? 10 then
       (* F13: the reads are those of a prefix of the entries, but of no prefix of the batches *)
       if o_opened o && prefix_consistent_b (entry_batches (c_steps c)) keys rd && negb (no_split (c_steps c)) then 1 else 0
-    else if c_prop c =? 11 then
-      (* F4 through GC: some forced GC wrote back a record that a read of its key does not return *)
-      if o_opened o && negb (maint_safe pl s) && negb m_maint then 1 else 0
     else 0 in
   mk_verdict (m_effs || m_reads || m_ack || m_maint) viol known.
